@@ -263,6 +263,37 @@ fn run_prod(t: usize, f: Option<usize>, states: &[Vec<bool>], prods: &[Vec<usize
     }
 }
 
+/// A spin product on `nvars` variables: 1..3 distinct variables, then (two thirds of the time) some indices repeated —
+/// an even number of extra copies (cancels: s^2 = 1) or an odd one, of a listed or of a new variable — and the list
+/// shuffled. The product is taken literally: every listed index multiplies once.
+fn gen_prod(g: &mut SplitMix64, nvars: usize) -> Vec<usize> {
+    let k = g.range(1, 3.min(nvars as i64)) as usize;
+    let mut vs: Vec<usize> = (0..nvars).collect();
+    let mut p: Vec<usize> = (0..k).map(|_| vs.remove(g.below(vs.len() as u64) as usize)).collect();
+    if g.chance(2, 3) {
+        let reps = g.range(1, 2) as usize;
+        for _ in 0..reps {
+            let v = if g.coin() { *g.pick(&p) } else { g.below(nvars as u64) as usize };
+            let copies = g.range(1, 3) as usize; // 1 extra copy of a listed variable = multiplicity 2, etc.
+            for _ in 0..copies {
+                let at = g.below(p.len() as u64 + 1) as usize;
+                p.insert(at, v);
+            }
+        }
+        // shuffle
+        for i in (1..p.len()).rev() {
+            let j = g.below(i as u64 + 1) as usize;
+            p.swap(i, j);
+        }
+        stat("prod_with_repeated_index", 1);
+    }
+    p
+}
+
+fn lit_prod(p: &[usize], st: &[bool]) -> f64 {
+    p.iter().map(|v| pm(st[*v])).product()
+}
+
 const LENS_QUICK: [usize; 20] = [2, 3, 4, 5, 6, 7, 8, 9, 10, 11, 12, 13, 16, 17, 19, 23, 31, 32, 37, 64];
 const LENS_THOROUGH: [usize; 10] = [27, 49, 61, 81, 100, 127, 128, 199, 251, 256];
 
@@ -424,13 +455,8 @@ fn mode_scripted(a: &Args, which: &str) {
                             .map(|_| {
                                 let mut p: Vec<usize> = vec![];
                                 for _ in 0..10 {
-                                    let k = g.range(1, 3.min(nvars as i64)) as usize;
-                                    let mut vs: Vec<usize> = (0..nvars).collect();
-                                    p.clear();
-                                    for _ in 0..k {
-                                        p.push(vs.remove(g.below(vs.len() as u64) as usize));
-                                    }
-                                    let col: Vec<f64> = sampled.iter().map(|st| p.iter().map(|v| pm(st[*v])).product()).collect();
+                                    p = gen_prod(&mut g, nvars);
+                                    let col: Vec<f64> = sampled.iter().map(|st| lit_prod(&p, st)).collect();
                                     if col.iter().any(|x| *x != col[0]) {
                                         break;
                                     }
@@ -461,11 +487,23 @@ struct Rep {
     obs: Arc<Vec<Vec<Vec<f64>>>>,
     /// every proposed exchange is accepted (equal Hamiltonians and betas in the real thing)
     always: bool,
+    /// if present, the spin state of graph `gid` after its `age`-th step is `bits[gid][(age-1) % len]`
+    /// (otherwise the state encodes (gid, age))
+    bits: Option<Arc<Vec<Vec<Vec<bool>>>>>,
+}
+impl Rep {
+    fn refresh(&mut self) {
+        self.state = match &self.bits {
+            Some(b) if self.age > 0 => b[self.gid][(self.age - 1) % b[self.gid].len()].clone(),
+            Some(b) => vec![false; b[self.gid][0].len()],
+            None => enc_age(self.gid, self.age),
+        };
+    }
 }
 impl QmcStepper for Rep {
     fn timestep(&mut self, _beta: f64) -> &[bool] {
         self.age += 1;
-        self.state = enc_age(self.gid, self.age);
+        self.refresh();
         &self.state
     }
     fn get_n(&self) -> usize {
@@ -512,8 +550,8 @@ impl SwapManagers for Rep {
     fn swap_graphs(&mut self, other: &mut Self) {
         std::mem::swap(&mut self.gid, &mut other.gid);
         std::mem::swap(&mut self.age, &mut other.age);
-        self.state = enc_age(self.gid, self.age);
-        other.state = enc_age(other.gid, other.age);
+        self.refresh();
+        other.refresh();
         let step = *self.gcount.lock().unwrap();
         self.swaps.lock().unwrap().push((step, self.slot, other.slot));
     }
@@ -594,7 +632,7 @@ fn mode_temper(a: &Args) {
             let swaps = Arc::new(Mutex::new(vec![]));
             let mut tc: TemperingContainer<SplitMix64, Rep> = TemperingContainer::new(SplitMix64::new(seed));
             for i in 0..nrep {
-                let r = Rep { slot: i, gid: i, age: 0, state: enc_age(i, 0), gcount: Mutex::new(0), swaps: swaps.clone(), seed, obs: obs.clone(), always };
+                let r = Rep { slot: i, gid: i, age: 0, state: enc_age(i, 0), gcount: Mutex::new(0), swaps: swaps.clone(), seed, obs: obs.clone(), always, bits: None };
                 tc.add_qmc_stepper(r, if always { 1.0 } else { [0.5, 1.0, 2.0, 4.0][i % 4] }).unwrap();
             }
             (tc, swaps)
@@ -691,6 +729,131 @@ fn mode_temper(a: &Args) {
                     oracle = Some(Err(m));
                 }
                 emit(nt, &input, &out.join(" "), oracle);
+            }
+        }
+    }
+}
+
+/// `ParallelTemperingAutocorrelations::{calculate_variable_autocorrelation, calculate_spin_product_autocorrelation}`
+/// (the only tempering versions of these helpers; they live in the rayon module) on mock replicas whose spin states
+/// are prescribed per (graph, age). Products contain repeated and unsorted indices.
+fn mode_temper_spin(a: &Args) {
+    let mut g = SplitMix64::new(a.seed ^ 0x2078);
+    let cases = if a.thorough { 240 } else { 48 };
+    for ci in 0..cases {
+        let nrep = g.range(1, 3) as usize;
+        let nvars = g.range(3, 5) as usize;
+        let f = g.range(1, 4) as usize;
+        let l = *g.pick(&LENS_QUICK[2..15]);
+        let t = l * f + g.below(f as u64) as usize;
+        let s = if ci % 6 == 5 { t } else { g.range(1, 6) as usize };
+        let always = ci % 3 == 2;
+        let bits: Arc<Vec<Vec<Vec<bool>>>> = Arc::new((0..nrep).map(|_| gen_states(&mut g, t.max(2), nvars)).collect());
+        let prod_entry = ci % 4 != 3;
+        let nprods = g.range(1, 4) as usize;
+        let prods: Vec<Vec<usize>> = (0..nprods).map(|_| gen_prod(&mut g, nvars)).collect();
+        let seed = g.next();
+        let build = || {
+            let swaps = Arc::new(Mutex::new(vec![]));
+            let mut tc: TemperingContainer<SplitMix64, Rep> = TemperingContainer::new(SplitMix64::new(seed));
+            for i in 0..nrep {
+                let mut r = Rep {
+                    slot: i,
+                    gid: i,
+                    age: 0,
+                    state: vec![],
+                    gcount: Mutex::new(0),
+                    swaps: swaps.clone(),
+                    seed,
+                    obs: Arc::new(vec![]),
+                    always,
+                    bits: Some(bits.clone()),
+                };
+                r.refresh();
+                tc.add_qmc_stepper(r, if always { 1.0 } else { [0.5, 1.0, 2.0][i % 3] }).unwrap();
+            }
+            (tc, swaps)
+        };
+        let (mut tc, swaps) = build();
+        let pr: Vec<&[usize]> = prods.iter().map(|p| &p[..]).collect();
+        let res = catch(|| {
+            if prod_entry {
+                tc.calculate_spin_product_autocorrelation(t, Some(s), &pr, Some(f))
+            } else {
+                tc.calculate_variable_autocorrelation(t, Some(s), Some(f))
+            }
+        });
+        let swaps = swaps.lock().unwrap().clone();
+        let nsteps = tc.graph_ref().first().map(|(m, _)| *m.gcount.lock().unwrap()).unwrap_or(0);
+        let maxstep = swaps.iter().map(|x| x.0).max().unwrap_or(0).max(nsteps);
+        let script = if maxstep == 0 {
+            "-".to_string()
+        } else {
+            (1..=maxstep)
+                .map(|k| {
+                    let v: Vec<String> = swaps.iter().filter(|x| x.0 == k).map(|x| format!("{}-{}", x.1, x.2)).collect();
+                    if v.is_empty() {
+                        "_".to_string()
+                    } else {
+                        v.join(".")
+                    }
+                })
+                .collect::<Vec<_>>()
+                .join(";")
+        };
+        let tabs = bits.iter().map(|tab| tab.iter().map(|st| vh::bits(st)).collect::<Vec<_>>().join(",")).collect::<Vec<_>>().join("!");
+        let input = if prod_entry {
+            format!(
+                "temperprod {} {} {} {} {} {} {}",
+                t,
+                s,
+                f,
+                nrep,
+                tabs,
+                prods.iter().map(|p| list(p).replace(',', ".")).collect::<Vec<_>>().join(","),
+                script
+            )
+        } else {
+            format!("tempervars {} {} {} {} {} {}", t, s, f, nrep, tabs, script)
+        };
+        match res {
+            Err(p) => emit(false, &input, "panic", Some(Err(format!("panicked: {}", p)))),
+            Ok(r) => {
+                // lock-step reference container; observables recomputed literally from its sampled states
+                let (mut tc2, _) = build();
+                let mut want: Vec<Vec<Vec<f64>>> = vec![vec![]; nrep];
+                for k in 1..=t {
+                    for (m, beta) in tc2.graph_mut().iter_mut() {
+                        m.timestep(*beta);
+                    }
+                    if k % s == 0 {
+                        tc2.tempering_step();
+                    }
+                    if k % f == 0 {
+                        for i in 0..nrep {
+                            let st = tc2.graph_ref()[i].0.state_ref();
+                            want[i].push(if prod_entry { prods.iter().map(|p| lit_prod(p, st)).collect() } else { st.iter().map(|b| pm(*b)).collect() });
+                        }
+                    }
+                }
+                let mut oracle: Option<Result<(), String>> = Some(Ok(()));
+                let mut out = vec![];
+                for i in 0..nrep {
+                    out.push(show_out(&r[i]));
+                    match judge(&r[i], &want[i]) {
+                        None => {
+                            if oracle.is_some() && oracle.as_ref().unwrap().is_ok() {
+                                oracle = None
+                            }
+                        }
+                        Some(Err(e)) => {
+                            oracle = Some(Err(format!("slot {} (products {:?}, every listed index multiplies once): {}", i, prods, e)));
+                            break;
+                        }
+                        Some(Ok(())) => {}
+                    }
+                }
+                emit(oracle.is_some(), &input, &out.join(" "), oracle);
             }
         }
     }
@@ -946,7 +1109,8 @@ type IsingQ = DefaultQmcIsingGraph<SplitMix64>;
 /// (antiferromagnetic; H = sum J s_a s_b) — and -1 otherwise. Computed from s[a], s[b], sign(J) only.
 fn bond_satisfied(a: usize, b: usize, j: f64, s: &[bool]) -> f64 {
     let aligned = s[a] == s[b];
-    if (j < 0.0 && aligned) || (j > 0.0 && !aligned) {
+    // J = 0: the unchanged code tests `J < 0.0`, i.e. a zero edge is listed and valued like an antiferromagnetic one
+    if (j < 0.0 && aligned) || (j >= 0.0 && !aligned) {
         1.0
     } else {
         -1.0
@@ -984,14 +1148,40 @@ fn gen_bond_graph(g: &mut SplitMix64, nvars: usize) -> Vec<((usize, usize), f64)
         pairs.push(d);
         stat("isingbond_duplicate_edge", 1);
     }
-    pairs
+    let mut edges: Vec<((usize, usize), f64)> = pairs
         .into_iter()
         .map(|(a, b)| {
             let (a, b) = if g.coin() { (b, a) } else { (a, b) };
             let j = *g.pick(&[-1.0, -0.5, 0.5, 1.0, 0.25, -0.75]);
             ((a, b), j)
         })
-        .collect()
+        .collect();
+    // edges that carry no (or almost no) coupling are still listed bonds: J = 0 and |J| = 2^-60, placed first,
+    // in the middle, last, several, or everywhere
+    let ne = edges.len();
+    let weak = |g: &mut SplitMix64| *g.pick(&[0.0, 0.0, 2f64.powi(-60), -(2f64.powi(-60))]);
+    match g.below(8) {
+        0 => edges[0].1 = weak(g),
+        1 => edges[ne / 2].1 = weak(g),
+        2 => edges[ne - 1].1 = weak(g),
+        3 => {
+            for e in edges.iter_mut() {
+                if g.coin() {
+                    e.1 = weak(g);
+                }
+            }
+        }
+        4 => edges.iter_mut().for_each(|e| e.1 = 0.0),
+        _ => {}
+    }
+    let nz = edges.iter().filter(|e| e.1 == 0.0).count();
+    if nz > 0 {
+        stat(if nz == ne { "isingbond_all_edges_zero" } else { "isingbond_some_edges_zero" }, 1);
+    }
+    if edges.iter().any(|e| e.1 != 0.0 && e.1.abs() < 1e-9) {
+        stat("isingbond_tiny_edge", 1);
+    }
+    edges
 }
 
 fn emit_isingbond(tag: &str, n_bonds: usize, edges: &[((usize, usize), f64)], r: &[f64], states: &[Vec<bool>]) {
@@ -1089,6 +1279,7 @@ fn main() {
     }
     if all || a.mode == "temper" {
         mode_temper(&a);
+        mode_temper_spin(&a);
     }
     if all || a.mode == "real" {
         mode_real(&a);
